@@ -175,10 +175,10 @@ Proof.
   intros Hf Hp Hh. start_pp.
   - cbn [dflt_rsv chunk nth size_leaf]. lens. change (lenN [0]) with 1. lia.
   - intros r2. cbn [dflt_rsv chunk nth]. hide_chunks. destruct (vf0 f Hf) as (J & V & F). rewrite J. rewrite <- !app_assoc.
-    unfold dec_hdlr, pbind, pret, payload_len. cbn [h_size h_len hdr8 size_leaf].
+    unfold dec_hdlr, pbind, pret, payload_len. cbn [h_size h_len hdr8 size_leaf]. rewrite Hh.
     pp.
-    replace (24 <? 8 + 24 + lenN name + 1 - 0 - 8) with true by (symmetry; apply N.ltb_lt; lia).
-    replace (8 + 24 + lenN name + 1 - 0 - 8 - 24) with (lenN (name ++ [0])) by (rewrite lenN_app; change (lenN [0]) with 1; lia).
+    replace (24 <? 8 + 20 + 4 + lenN name + 1 - 0 - 8) with true by (symmetry; apply N.ltb_lt; lia).
+    replace (8 + 20 + 4 + lenN name + 1 - 0 - 8 - 24) with (lenN (name ++ [0])) by (rewrite lenN_app; change (lenN [0]) with 1; lia).
     rewrite (app_assoc name [0] r2), rdB_app by reflexivity.
     rewrite last_snoc, N.eqb_refl, removelast_snoc, V, F. reflexivity.
 Qed.
